@@ -29,7 +29,7 @@ class C30(S.SchedCheck):
                    "other asyncio tasks cannot reach scheduler state (they act on a disjoint world in the model; none are scheduled in the harness run)",
                    "asyncio.SelectorEventLoop, CPython 3.12"] + S.SchedCheck.assumptions
     rule = ("all profiles of the family (mixed ops faults time plain: extend/remove ops, raise/kbint/failing enter, nesting, limits incl. 0/negative/non-multiples) + timing profiles of C03 "
-            "+ family corpus; every case is run twice on the real code (do, ado); ~a quarter of the cases reach the program through a history / other entry point (schedt.run_var variants), another quarter additionally fix a cycle j at whose await a second asyncio task cancels the ado task.  non-trivial = as C01 or >= 10 recur events; distinct by request line")
+            "+ family corpus; every case is run twice on the real code (do, ado); ~a quarter of the cases reach the program through a history / other entry point (schedt.run_var variants), ~18% are HISTORIES of 2-3 runs on ONE Doist object (limit given as an argument or not at all — sticky —, new doers= / none, tyme= or continuing, stale deeds from a hand-made enter() without exit()), executed all-through-do, all-through-ado and alternating, every run compared pairwise (oracle only, driver answers (unmodelled)); another quarter additionally fix a cycle j at whose await a second asyncio task cancels the ado task.  non-trivial = as C01 or >= 10 recur events; distinct by request line")
 
     def extract(self):
         return XS.extract()
@@ -38,7 +38,7 @@ class C30(S.SchedCheck):
     # or ("seq", (start1, limit1), <run case>): the doer objects were run before under another Doist; the SECOND runs (do / ado) are observed
     @staticmethod
     def base(case):
-        return case[2] if case[0] in ("cancel", "seq", "var") else case
+        return case[2] if case[0] in ("cancel", "seq", "var", "hist") else case
 
     def generate(self, rng, n, tier):
         for _ in range(n):
@@ -50,7 +50,9 @@ class C30(S.SchedCheck):
             else:
                 c = S.gen_case(rng, rng.choice(self.profiles))
             k = rng.random()
-            if k < 0.25 and not S.unmodelled(c):
+            if k > 0.82 and len(c) == 6 and not S.has_always(list(c[5]) + list(c[4])):
+                yield ("hist", T.gen_steps(rng, c), c)
+            elif k < 0.25 and not S.unmodelled(c):
                 yield ("cancel", rng.choice([0, 0, 1, 1, 2, 3, 5, 8]), c)
             elif k < 0.5 and len(c) == 6 and not S.unmodelled(c) and (c[3] is not None or not S.has_always(list(c[5]))):
                 yield ("var", T.gen_var(rng, c), c)
@@ -61,16 +63,34 @@ class C30(S.SchedCheck):
         cs = list(S.CORPUS) + list(T.TIMING_CORPUS)
         return cs + [("cancel", j, c) for j in (0, 2) for c in cs[:6] + list(T.TIMING_CORPUS)[:5] if not S.unmodelled(c)] \
             + [("seq", (float(c[2]) + 5.0, 2.5 * float(c[1])), c) for c in T.TIMING_CORPUS] \
+            + [("hist", [tuple(st) for st in steps], c) for steps in self.HIST_CORPUS_STEPS
+               for c in (T.F46_WITNESS, T.TIMING_CORPUS[4], ("run", 1.0, 0.0, None, [], [T._lf(1, [0.0] * 9), T._lf(2, [0.0] * 9, "plain"), T._lf(3, [2.0] * 4, "genrecur")]))] \
             + [("var", v, c) for c in (T.F46_WITNESS, T.TIMING_CORPUS[3], T.DEGENERATE_CORPUS[0]) for v in
                (("same", (5.0, 2.5, 2.0)), ("faulted-first", (5.0, 4.0)), ("wound", (50.0,)), ("ints",), ("iter",), ("init",), ("call",), ("manual",), ("opts",))]
 
+    HIST_CORPUS_STEPS = (
+        [("all", 3.0, None, None), ("all", None, 0.0, None)],                  # the limit given to run 0 is sticky: run 1 passes none
+        [("all", 2.5, None, None), ("keep", None, None, None), ("first", 7.0, 0.0, None)],
+        [("all", 3.0, None, None), ("rest", None, 0.0, "enter")],               # stale deeds: enter() by hand, no exit(), then doers=
+        [("first", None, None, "enter-recur"), ("all", 4.0, None, None)],
+    )
+
     def request(self, case):
+        if case[0] == "hist":
+            return ("unmodelled",)
         if case[0] == "cancel":
             return T.request_head("adocancel", case[2], ("cancel", case[1]))
         return T.request_head("doado", self.base(case))
 
     def run_impl(self, case):
         T.settle_heap()
+        if case[0] == "hist":
+            steps, c = case[1], case[2]
+            n = len(steps)
+            alt = ["do" if k % 2 == 0 else "ado" for k in range(n)]
+            return T.HistObs({"all-do": T.run_hist(c, steps, ["do"] * n), "all-ado": T.run_hist(c, steps, ["ado"] * n),
+                              "do-ado-alternating": T.run_hist(c, steps, alt),
+                              "ado-do-alternating": T.run_hist(c, steps, ["ado" if m == "do" else "do" for m in alt])})
         if case[0] == "cancel":
             return T.CancelObs(S.run_program(case[2], "do"), T.run_cancelled(case[2], case[1]))
         if case[0] in ("seq", "var"):
@@ -84,6 +104,19 @@ class C30(S.SchedCheck):
                 yield ("cancel", j, case[2])
             for c in super().shrink(case[2]):
                 yield ("cancel", case[1], c)
+        elif case[0] == "hist":
+            steps = list(case[1])
+            for k in range(len(steps)):
+                if len(steps) > 1:
+                    yield ("hist", steps[:k] + steps[k + 1:], case[2])
+            for k, st in enumerate(steps):
+                if st[3] is not None:
+                    yield ("hist", steps[:k] + [(st[0], st[1], st[2], None)] + steps[k + 1:], case[2])
+                if st[2] is not None:
+                    yield ("hist", steps[:k] + [(st[0], st[1], None, st[3])] + steps[k + 1:], case[2])
+            for c in super().shrink(case[2]):
+                if not S.has_always(list(c[5]) + list(c[4])):
+                    yield ("hist", steps, c)
         elif case[0] in ("seq", "var"):
             yield case[2]
             for c in super().shrink(case[2]):
@@ -93,6 +126,8 @@ class C30(S.SchedCheck):
             yield from super().shrink(case)
 
     def mutate(self, rng, case):
+        if case[0] == "hist":
+            return []
         if case[0] in ("seq", "var"):
             return [(case[0], case[1], c) for c in super().mutate(rng, case[2]) if T.op_free(c) and T.fault_free(c) and not S.unmodelled(c)]
         if case[0] == "cancel":
@@ -108,9 +143,17 @@ class C30(S.SchedCheck):
             f.append("cancel:" + ("delivered" if obs.b["raised"] == "cancelled" else "run-ended-first"))
         if case[0] in ("seq", "var"):
             f.append("variant:" + ("seq" if case[0] == "seq" else case[1][0]))
+        if case[0] == "hist":
+            f.append("history:%d-runs" % len(case[1]))
+            if any(st[3] for st in case[1]):
+                f.append("history:stale-deeds")
+            if any(st[1] is None for st in case[1][1:]) and any(st[1] is not None for st in case[1]):
+                f.append("history:sticky-limit")
         return f
 
     def oracle(self, case, obs):
+        if case[0] == "hist":
+            return T.c30_hist_clauses(obs.runs)
         if case[0] == "cancel":
             return T.c30_cancel_clauses(case[2], case[1], obs.a, obs.b)
         return T.c30_clauses(obs.a, obs.b)
